@@ -124,7 +124,7 @@ func Predict(cs *ClientSpec) (preds []Pred, complete bool, closes bool, resets b
 				return preds, false, closes, resets
 			}
 			replySeq := 0
-			if pr.Step.Reply != nil && pr.Step.Reply.Representable() && h.Seq != 255 {
+			if pr.Step.Reply != nil && pr.Step.Reply.Sendable() && h.Seq != 255 {
 				pr.Reply = true
 				pr.ReplySeq = h.Seq + 1
 				if pr.Step.Reply.Kind == model.KAuthenReply && nthN(pr.Step.Reply.N, 0) == 6 {
